@@ -310,3 +310,46 @@ def has_nullable_top_component(ast):
             seg.append(it)
     segs.append(seg)
     return any(s and all(_nullable(x) for x in s) for s in segs)
+
+
+def sometimes_rooted_context_leak(ast):
+    """The known C06 context leak (KF-sometimes-rooted-glob): a separator or rooted tree wildcard
+    begins a branch that is nested at least two levels deep and lies at the very start of the
+    expression (every enclosing branch token is the first token of its concatenation). A rooting
+    boundary at the start of a *top-level* branch (`{/a,b}`, `</a:0,1>b`) is outside this class."""
+    def rec(g, depth):
+        items = gen.nonflag(g)
+        if not items:
+            return False
+        first = items[0]
+        if depth >= 2 and (first[0] == "sep" or (first[0] == "tree" and first[1])):
+            return True
+        if first[0] == "alt":
+            return any(rec(b, depth + 1) for b in first[1])
+        if first[0] == "rep":
+            return rec(first[1], depth + 1)
+        return False
+    return ast is not None and rec(ast, 0)
+
+
+def boundary_at_nested_branch_edge(ast):
+    """The known C06 weakness (KF-rule-nested-branch-edges): a branch nested at least two levels deep
+    (an alternation branch or repetition body inside another branch) begins or ends with a component
+    boundary (separator or tree wildcard), or consists of one. The rule checker compares the
+    terminals of such a branch with a neighbour context that is shared by the whole breadth-first
+    traversal, so its verdict there depends on unrelated parts of the expression. Branches at the top
+    level of the expression are outside this class."""
+    def edge(g):
+        items = gen.nonflag(g)
+        return bool(items) and (items[0][0] in ("sep", "tree") or items[-1][0] in ("sep", "tree"))
+
+    def rec(g, depth):
+        for it in gen.nonflag(g):
+            subs = it[1] if it[0] == "alt" else ([it[1]] if it[0] == "rep" else [])
+            for b in subs:
+                if depth + 1 >= 2 and edge(b):
+                    return True
+                if rec(b, depth + 1):
+                    return True
+        return False
+    return ast is not None and rec(ast, 0)
